@@ -92,6 +92,12 @@ func (e *Engine) verifyFunction(fn *ssa.Function, ct *Contract) {
 	if pkg == nil && fn.Parent() != nil {
 		pkg = fn.Parent().Package()
 	}
+	// names given in the contract header (spec files) are bound positionally, next to the Go parameter names
+	for i, p := range fn.Params {
+		if i < len(ct.Params) {
+			vars[ct.Params[i]] = fr.env[p]
+		}
+	}
 	contracts := []*Contract{ct}
 	if ct.Refines != "" {
 		rc := e.lookup(ct.Refines)
